@@ -151,11 +151,41 @@ def run_check(prop, lens, args, seed, known, t0):
         if res["viol"]:
             first_bad[idx] = res
 
-    tasks = [{"seed": world.mix(seed, prop, tier, i), "want_scenario": i < 12} for i in range(runs)]
+    sweep_n = 0 if (tier != "thorough" or args.only_run is not None or not getattr(lens, "SWEEP", True)) else 80
+    tasks = [{"seed": world.mix(seed, prop, tier, i), "want_scenario": i < max(12, sweep_n)} for i in range(runs)]
     if args.only_run is not None:
         tasks = [{"seed": world.mix(seed, prop, tier, args.only_run)}]
     cap = getattr(lens, "WALL_CAP", {}).get(tier) if hasattr(lens, "WALL_CAP") else None
-    world.run_many(cli._run_task, tasks, jobs=jobs, timeout=60, on_result=on_result, wall_cap=cap, keep=False)
+    sweep_bases = []
+
+    def on_result_collect(idx, r):
+        if sweep_n and r.get("ok") and idx < sweep_n and "scenario" in r["res"] and r["res"]["events"]:
+            sweep_bases.append(r["res"]["scenario"])
+        return on_result(idx, r)
+
+    world.run_many(cli._run_task, tasks, jobs=jobs, timeout=60, on_result=on_result_collect, wall_cap=cap, keep=False)
+    agg["fault_sweep_runs"] = 0
+    if sweep_bases and not first_bad and not herrs:
+        # thorough tier: the classic "fail the k-th interaction" sweep, systematically, over the
+        # first scenarios that delivered events: every code-running operation gets a failure at
+        # every interaction index up to a bound, as an Exception and as a BaseException
+        stasks = []
+        for sc in sweep_bases:
+            for oi, op in enumerate(sc.get("ops", [])):
+                if op.get("op") != "call" and not str(op.get("op")).startswith("gen_"):
+                    continue
+                if op.get("op") in ("gen_new", "gen_drop"):
+                    continue
+                for k in range(0, 24):
+                    for kind in ("E", "B") if k % 3 == 0 else ("E",):
+                        ops2 = list(sc["ops"])
+                        ops2[oi] = dict(op, faults={str(k): kind})
+                        stasks.append({"scenario": dict(sc, ops=ops2)})
+        stasks = stasks[:20000]
+        agg["fault_sweep_runs"] = len(stasks)
+        base = len(tasks)
+        world.run_many(cli._run_task, stasks, jobs=jobs, timeout=60,
+                       on_result=lambda i, r: on_result(base + i, r), keep=False)
     for idx in sorted(first_bad):
         res = first_bad[idx]
         v = res["viol"][0]
@@ -219,7 +249,8 @@ def run_check(prop, lens, args, seed, known, t0):
                 "(operation kind, function, outcome class, active selector set) tuples reached"
             ),
             "samples": samples or [{"note": "no run delivered an event"}],
-            "seeded_runs": agg["evaluations"],
+            "seeded_runs": agg["evaluations"] - agg.get("fault_sweep_runs", 0),
+            "fault_index_sweep_runs": agg.get("fault_sweep_runs", 0),
             "pinned_scenarios": len(pinned),
             "known_finding_replays": kf_report,
             "nontrivial_runs": agg["nontrivial_runs"],
